@@ -93,7 +93,7 @@ CLAIMED["C04"] = (
     "The real posix raw Screen draws seeded histories of canvases (generated attribute/charset/text runs incl. wide, combining, "
     "DEC-special and control characters; palette names, aliases, undefined names, AttrSpec objects, None with and without an application-registered None entry; 5 colour depths; 3 output "
     "encodings; back_color_erase on/off) on a fake tty, interleaved with clear(), set_terminal_properties and SIGWINCH delivered at "
-    "scheduled points including inside the k-th write() of a frame. RefTerm, an independent VT100/xterm model, interprets every "
+    "scheduled points including inside the k-th write() of a frame; one session in eight runs on the normal screen buffer (relative cursor moves). RefTerm, an independent VT100/xterm model, interprets every "
     "byte; after every frame of the right size every cell (text, resolved attributes, charset), the cursor and the scroll counter "
     "are compared, with attribute expectations computed from the palette by a model of the colour notation written independently of urwid.display.common "
     "(AttrSpec's public properties only where the notation leaves a choice). The same canvas object drawn again after a window was shrunk and restored must be repainted. The "
